@@ -24,19 +24,23 @@ impl<'a> TemporalPruner<'a> {
             None => return None,
         };
         let is_timestamp = column == "timestamp";
-        let ts = match value {
-            ScalarValue::Int64(i) => (*i).max(0) as u64,
-            ScalarValue::Timestamp(t) => (*t).max(0) as u64,
+        // Keep the literal's instant signed: stored datetime/date values may lie before 1970.
+        // Only the calendar lookup (u64 buckets) is clamped at 0; zones that hold pre-epoch
+        // values are registered from bucket 0 on (see TemporalIndexBuilder).
+        let ts: i64 = match value {
+            ScalarValue::Int64(i) => *i,
+            ScalarValue::Timestamp(t) => *t,
             ScalarValue::Utf8(s) => {
-                if let Some(parsed) = TimeParser::parse_str_to_epoch_seconds(s, TimeKind::DateTime)
-                {
-                    parsed.max(0) as u64
-                } else {
-                    s.parse::<u64>().ok().unwrap_or(0)
+                match TimeParser::parse_str_to_epoch_seconds(s, TimeKind::DateTime) {
+                    Some(parsed) => parsed,
+                    // Not a time literal: the row filter ignores such a SINCE, so it must not
+                    // restrict the zones either (every stored instant is >= i64::MIN).
+                    None => i64::MIN,
                 }
             }
             _ => 0,
         };
+        let cal_ts: i64 = ts.max(0);
 
         match op {
             CompareOp::Eq => {
@@ -46,12 +50,12 @@ impl<'a> TemporalPruner<'a> {
                         self.artifacts
                             .load_field_calendar(segment_id, uid, "timestamp")
                     {
-                        let zones = cal.zones_intersecting(CompareOp::Eq, ts as i64);
+                        let zones = cal.zones_intersecting(CompareOp::Eq, cal_ts);
                         zone_ids = zones.iter().map(|zid| zid as u32).collect();
                     }
                 } else if let Ok(cal) = self.artifacts.load_field_calendar(segment_id, uid, column)
                 {
-                    let zones = cal.zones_intersecting(CompareOp::Eq, ts as i64);
+                    let zones = cal.zones_intersecting(CompareOp::Eq, cal_ts);
                     zone_ids = zones.iter().map(|zid| zid as u32).collect();
                 } else {
                     return None;
@@ -66,7 +70,7 @@ impl<'a> TemporalPruner<'a> {
                             .load_field_temporal_index(segment_id, uid, column, zid)
                     };
                     if let Ok(zti) = zti_result {
-                        if zti.contains_ts(ts as i64) {
+                        if zti.contains_ts(ts) {
                             out.push(CandidateZone::new(zid, segment_id.to_string()));
                         }
                     }
@@ -87,7 +91,7 @@ impl<'a> TemporalPruner<'a> {
                             CompareOp::Lte => CompareOp::Lte,
                             _ => CompareOp::Eq,
                         };
-                        let zones = cal.zones_intersecting(cmp, ts as i64);
+                        let zones = cal.zones_intersecting(cmp, cal_ts);
                         zone_ids = zones.iter().map(|zid| zid as u32).collect();
                     }
                 } else if let Ok(cal) = self.artifacts.load_field_calendar(segment_id, uid, column)
@@ -99,7 +103,7 @@ impl<'a> TemporalPruner<'a> {
                         CompareOp::Lte => CompareOp::Lte,
                         _ => CompareOp::Eq,
                     };
-                    let zones = cal.zones_intersecting(cmp, ts as i64);
+                    let zones = cal.zones_intersecting(cmp, cal_ts);
                     zone_ids = zones.iter().map(|zid| zid as u32).collect();
                 } else {
                     return None;
@@ -115,10 +119,10 @@ impl<'a> TemporalPruner<'a> {
                     };
                     if let Ok(zti) = zti_result {
                         let overlaps = match op {
-                            CompareOp::Gt => zti.max_ts > ts as i64,
-                            CompareOp::Gte => zti.max_ts >= ts as i64,
-                            CompareOp::Lt => zti.min_ts < ts as i64,
-                            CompareOp::Lte => zti.min_ts <= ts as i64,
+                            CompareOp::Gt => zti.max_ts > ts,
+                            CompareOp::Gte => zti.max_ts >= ts,
+                            CompareOp::Lt => zti.min_ts < ts,
+                            CompareOp::Lte => zti.min_ts <= ts,
                             _ => false,
                         };
                         if overlaps {
